@@ -135,12 +135,22 @@ func VH_C08_watch_event() {
 	}
 	v1, w1 := vhState("s1")
 	et := kemtypes.WatchEventType(zz.OneOf("event", string(kemtypes.WatchEventAdded), string(kemtypes.WatchEventModified), string(kemtypes.WatchEventDeleted)))
+	// the change enters through the callbacks client-go calls (cache.ResourceEventHandler)
 	if zz.Bool("delete_arrives_as_tombstone") {
 		// a deletion noticed only by a re-list is delivered wrapped in a tombstone
 		zz.Assume(et == kemtypes.WatchEventDeleted)
-		ei.handleWatchEvent(cache.DeletedFinalStateUnknown{Key: "ns/p", Obj: vhObject(shape, v1, w1)}, et)
+		ei.OnDelete(cache.DeletedFinalStateUnknown{Key: "ns/p", Obj: vhObject(shape, v1, w1)})
 	} else {
-		ei.handleWatchEvent(vhObject(shape, v1, w1), et)
+		switch zz.ConcretizeStr(string(et)) {
+		case string(kemtypes.WatchEventAdded):
+			// Added notifications of the informer's own initial list carry isInInitialList:
+			// the object may have changed since loadExistedObjects listed it
+			ei.OnAdd(vhObject(shape, v1, w1), zz.Bool("added_is_in_initial_list"))
+		case string(kemtypes.WatchEventModified):
+			ei.OnUpdate(nil, vhObject(shape, v1, w1))
+		default:
+			ei.OnDelete(vhObject(shape, v1, w1))
+		}
 	}
 
 	same := v0 == v1
